@@ -105,5 +105,49 @@ Example C05_annex_a : ltac:(let T := type of (conj annex_a1 (conj annex_a2 annex
 Proof. exact (conj annex_a1 (conj annex_a2 annex_a3)). Qed.
 Print Assumptions C05_annex_a.
 
-(* OPEN: the same refinement for aligned PER (the field layer of X691.v was written so that an aligned serialiser
-   can be added without touching x691_fields). *)
+(** ------------------------------------------------------------------
+    Aligned PER (per.py).  [Per/X691Aligned.v]: the aligned field list (the X.691 clause functions of X691.v for
+    INTEGER, ENUMERATED, OID, UTF8String; own string clauses with octet-aligned bit-fields and power-of-two
+    character widths) and [serialise_aligned], which takes the current bit position (11.5.7: ranges up to 255 as
+    bit-fields, 256 one aligned octet, up to 64K two aligned octets, larger: aligned length-prefixed octets;
+    aligned length determinants, strings aligned when variable or longer than 16 bits, aligned open types).
+    [pe] selects the reading of "an empty octet-aligned bit-field still pads" - per.py does both - and
+    everything is stated for both readings.  The implementation model of per.py, as a state transformer from ANY
+    encoder state, computes exactly the specification on [x691a_scope], errors included. *)
+From Asn1V Require Import Per.PerImpl Per.X691Aligned Per.X691AlignedRefine Per.X691AlignedEx.
+
+Theorem C05_per_refines_x691 :
+  forall pe numeric e fuel t v st,
+    x691a_scope pe numeric e fuel t v = true ->
+    penc_ty numeric e fuel t v st =
+    match x691a_fields numeric e fuel t v with
+    | Ok fs => Ok (pst_app st (serialise_aligned pe fs (fst st)))
+    | Err err => Err err
+    end.
+Proof. exact per_refines_x691. Qed.
+Print Assumptions C05_per_refines_x691.
+
+Theorem C05_per_encode_refines_x691 :
+  forall pe numeric e fuel t v,
+    x691a_scope pe numeric e fuel t v = true ->
+    x691a_encode numeric e pe fuel t v <> Ok [] ->
+    per_encode numeric fuel e t v = x691a_encode_octets numeric e pe fuel t v.
+Proof. exact per_encode_refines_x691. Qed.
+Print Assumptions C05_per_encode_refines_x691.
+
+Theorem C05_per_encode_empty_x691 :
+  forall pe numeric e fuel t v,
+    x691a_scope pe numeric e fuel t v = true ->
+    x691a_encode numeric e pe fuel t v = Ok [] ->
+    per_encode numeric fuel e t v = Ok [] /\ x691a_encode_octets numeric e pe fuel t v = Ok [0].
+Proof. exact per_encode_empty_x691. Qed.
+Print Assumptions C05_per_encode_empty_x691.
+
+(** Non-vacuity: the examples are in the aligned scope, and the aligned specification model reproduces the ALIGNED
+    examples of X.691 Annex A.1.2 (94 octets), A.2.2 (74), A.3.2 (83) octet for octet, for both readings. *)
+Example C05_aligned_scope_inhabited : ltac:(let T := type of (conj ex_in_ascope top2_in_ascope) in exact T).
+Proof. exact (conj ex_in_ascope top2_in_ascope). Qed.
+Print Assumptions C05_aligned_scope_inhabited.
+Example C05_annex_a_aligned : ltac:(let T := type of (conj annex_a1_aligned (conj annex_a2_aligned annex_a3_aligned)) in exact T).
+Proof. exact (conj annex_a1_aligned (conj annex_a2_aligned annex_a3_aligned)). Qed.
+Print Assumptions C05_annex_a_aligned.
